@@ -110,6 +110,8 @@ type Level struct {
 	PceSvn int
 	Tdx    [16]int
 	Status string
+	SgxRaw []int // if non-nil: the sgxtcbcomponents list verbatim (any length, any values) instead of Sgx
+	TdxRaw []int // if non-nil: the tdxtcbcomponents list verbatim instead of Tdx
 }
 
 type ModLevel struct {
@@ -175,6 +177,8 @@ type RespSpec struct {
 	HdrMode   string   // "ok" | "absent" | "two" | "empty" | "badescape" | "wrongtype" | "garbageder"
 	HdrTrailer string  // bytes after the last block (before escaping)
 	BodyOverride []byte // if non-nil, sent as the response body verbatim
+	HdrMut    func([]byte) []byte // applied to the escaped header value (each value) before it is put on the wire
+	BodyRaw   []byte   // if non-nil: the response body verbatim (members, signature and Fetch "garbage" ignored)
 }
 
 type CrlSpec struct {
@@ -394,10 +398,21 @@ func comps(v [16]int) []comp {
 	return out
 }
 
+func compsOf(v [16]int, raw []int) []comp {
+	if raw == nil {
+		return comps(v)
+	}
+	out := make([]comp, len(raw))
+	for i := range raw {
+		out[i] = comp{raw[i]}
+	}
+	return out
+}
+
 func (d *TcbDoc) JSON() []byte {
 	var levels []any
 	for _, l := range d.Levels {
-		levels = append(levels, map[string]any{"tcb": map[string]any{"sgxtcbcomponents": comps(l.Sgx), "pcesvn": l.PceSvn, "tdxtcbcomponents": comps(l.Tdx)},
+		levels = append(levels, map[string]any{"tcb": map[string]any{"sgxtcbcomponents": compsOf(l.Sgx, l.SgxRaw), "pcesvn": l.PceSvn, "tdxtcbcomponents": compsOf(l.Tdx, l.TdxRaw)},
 			"tcbDate": "2024-03-13T00:00:00Z", "tcbStatus": l.Status})
 	}
 	if levels == nil {
@@ -506,7 +521,16 @@ func (w *World) response(name string, member []byte, r *RespSpec, hdrKey string,
 	if r.BodyOverride != nil {
 		body = r.BodyOverride
 	}
-	return &Response{Headers: w.issuerHeader(hdrKey, r.HdrRoles, defRoles, r.HdrMode, r.HdrTrailer), Body: body}, signed
+	if r.BodyRaw != nil {
+		body = r.BodyRaw
+	}
+	hdr := w.issuerHeader(hdrKey, r.HdrRoles, defRoles, r.HdrMode, r.HdrTrailer)
+	if r.HdrMut != nil {
+		for i, v := range hdr[hdrKey] {
+			hdr[hdrKey][i] = string(r.HdrMut([]byte(v)))
+		}
+	}
+	return &Response{Headers: hdr, Body: body}, signed
 }
 
 func (w *World) issuerHeader(key string, roles, defRoles []string, mode, trailer string) map[string][]string {
